@@ -653,9 +653,36 @@ func (ex *Exec) execMakeSlice(st *State, fr *Frame, x *ssa.MakeSlice) {
 
 // sizeValue turns a (possibly symbolic) size into a concrete one by case split; checks the allocation obligation.
 func (ex *Exec) sizeValue(st *State, t *Term, why string, elem types.Type) (int, bool) {
-	if !t.IsConst() && st.allocHook != nil {
-		if !st.allocHook(ex, st, t, elem, why) {
-			return 0, false
+	if !t.IsConst() && st.allocLimit > 0 && st.decIdx >= len(st.decs) {
+		// obligation: bytes requested <= limit, for every feasible value of t
+		sz := uint64(types.SizesFor("gc", "amd64").Sizeof(elem))
+		if sz == 0 {
+			sz = 1
+		}
+		t64 := t
+		if t.W < 64 {
+			t64 = ex.tt.SExt(t, 64)
+		}
+		big := ex.tt.Slt(C(64, uint64(st.allocLimit)/sz), t64)
+		r := ex.check(st.pc, big)
+		if r == Sat {
+			var model Model
+			if ex.lastFromAlt {
+				model = ex.alt.GetModel(ex.tt.Vars)
+			} else {
+				model = ex.solver.GetModel(ex.tt.Vars)
+			}
+			v := evalTerm(t64, model, nil, map[*Term]uint64{})
+			ex.donePending()
+			site := st.site()
+			ex.recordViolation(st, "bigalloc", "alloc:"+site, fmt.Sprintf("%s: allocation of %d elements of %d bytes (%s) driven by input, limit %d bytes, at %s", why, int64(v), sz, elem, st.allocLimit, st.where()), model)
+			st.fail = &Failure{Kind: "violation", ID: "alloc:" + site}
+			st.done = true
+			panic(pathEnd{})
+		}
+		ex.donePending()
+		if r == Unknown {
+			ex.out.Inconclusive = append(ex.out.Inconclusive, "allocation obligation: solver unknown at "+st.site())
 		}
 	}
 	v := int64(ex.concretize(st, t, why))
@@ -663,9 +690,9 @@ func (ex *Exec) sizeValue(st *State, t *Term, why string, elem types.Type) (int,
 		v = sext64(uint64(v), t.W)
 	}
 	if v > int64(ex.cfg.MaxAlloc) {
-		st.fail = &Failure{Kind: "bigalloc", ID: why, Msg: fmt.Sprintf("%s of %d elements (%s)", why, v, elem)}
+		st.fail = &Failure{Kind: "bigalloc", ID: st.site(), Msg: fmt.Sprintf("%s of %d elements (%s)", why, v, elem)}
 		st.done = true
-		return 0, false
+		panic(pathEnd{})
 	}
 	if v < 0 {
 		return -1, true
@@ -815,6 +842,7 @@ func (ex *Exec) execIndex(st *State, fr *Frame, x *ssa.Index) {
 
 func (ex *Exec) execSlice(st *State, fr *Frame, x *ssa.Slice) {
 	base := ex.get(fr, x.X)
+	tt := ex.tt
 	var lo, hi, mx *Term
 	if x.Low != nil {
 		lo = ex.get(fr, x.Low).(*Term)
@@ -825,21 +853,39 @@ func (ex *Exec) execSlice(st *State, fr *Frame, x *ssa.Slice) {
 	if x.Max != nil {
 		mx = ex.get(fr, x.Max).(*Term)
 	}
-	conc := func(t *Term, why string) int {
-		v := ex.concretize(st, t, why)
-		return int(sext64(v, t.W))
+	s64 := func(t *Term) *Term {
+		if t.W < 64 {
+			return tt.SExt(t, 64)
+		}
+		return t
+	}
+	// bounds(length/cap limits): 0 <= lo <= hi <= max <= limit, evaluated symbolically first
+	checkBounds := func(lenDefault, limit int) (int, int, int, bool) {
+		lT, hT, mT := C(64, 0), C(64, uint64(lenDefault)), C(64, uint64(limit))
+		if lo != nil {
+			lT = s64(lo)
+		}
+		if hi != nil {
+			hT = s64(hi)
+		}
+		if mx != nil {
+			mT = s64(mx)
+		}
+		upper := mT
+		ok := tt.AndN(tt.Sle(C(64, 0), lT), tt.Sle(lT, hT), tt.Sle(hT, upper), tt.Sle(mT, C(64, uint64(limit))))
+		if !ex.branch(st, ok) {
+			ex.runtimePanic(st, fmt.Sprintf("slice bounds out of range [%s:%s:%s] with capacity %d", lT, hT, mT, limit))
+			return 0, 0, 0, false
+		}
+		l := int(ex.concretize(st, lT, "slice low"))
+		h := int(ex.concretize(st, hT, "slice high"))
+		m := int(ex.concretize(st, mT, "slice max"))
+		return l, h, m, true
 	}
 	switch b := base.(type) {
 	case StrVal:
-		l, h := 0, b.Len()
-		if lo != nil {
-			l = conc(lo, "string slice low")
-		}
-		if hi != nil {
-			h = conc(hi, "string slice high")
-		}
-		if l < 0 || h < l || h > b.Len() {
-			ex.runtimePanic(st, fmt.Sprintf("slice bounds out of range [%d:%d] with length %d", l, h, b.Len()))
+		l, h, _, ok := checkBounds(b.Len(), b.Len())
+		if !ok {
 			return
 		}
 		if b.T != nil {
@@ -851,18 +897,8 @@ func (ex *Exec) execSlice(st *State, fr *Frame, x *ssa.Slice) {
 		if b.Kind != SliceNormal {
 			unsup("slicing blob/iota slice")
 		}
-		l, h, m := 0, b.Len, b.Cap
-		if lo != nil {
-			l = conc(lo, "slice low")
-		}
-		if hi != nil {
-			h = conc(hi, "slice high")
-		}
-		if mx != nil {
-			m = conc(mx, "slice max")
-		}
-		if l < 0 || h < l || m < h || m > b.Cap {
-			ex.runtimePanic(st, fmt.Sprintf("slice bounds out of range [%d:%d:%d] with capacity %d", l, h, m, b.Cap))
+		l, h, m, ok := checkBounds(b.Len, b.Cap)
+		if !ok {
 			return
 		}
 		n := b
@@ -879,18 +915,8 @@ func (ex *Exec) execSlice(st *State, fr *Frame, x *ssa.Slice) {
 			return
 		}
 		alen := int(x.X.Type().Underlying().(*types.Pointer).Elem().Underlying().(*types.Array).Len())
-		l, h, m := 0, alen, alen
-		if lo != nil {
-			l = conc(lo, "slice low")
-		}
-		if hi != nil {
-			h = conc(hi, "slice high")
-		}
-		if mx != nil {
-			m = conc(mx, "slice max")
-		}
-		if l < 0 || h < l || m < h || m > alen {
-			ex.runtimePanic(st, fmt.Sprintf("slice bounds out of range [%d:%d:%d] with array length %d", l, h, m, alen))
+		l, h, m, ok := checkBounds(alen, alen)
+		if !ok {
 			return
 		}
 		ex.set(fr, x, SliceVal{Base: b, Off: l, Len: h - l, Cap: m - l, NonNil: true})
